@@ -487,6 +487,7 @@ class NumericalHessianCalculator:
 
             for row_idx, row in jobs:
                 self._hessian[row_idx, :] = row.result()
+                self._calculated_rows.append(row_idx)
 
         return None
 
@@ -500,6 +501,7 @@ class NumericalHessianCalculator:
                 else self._diff_row(i, k)
             )
             self._hessian[3 * i + k, :] = row
+            self._calculated_rows.append(3 * i + k)
 
         return None
 
@@ -552,8 +554,6 @@ class NumericalHessianCalculator:
 
         for row_idx in range(self._n_rows):
             if row_idx not in self._calculated_rows:
-                self._calculated_rows.append(row_idx)
-
                 atom_idx = row_idx // 3
                 component = row_idx % 3  # 0: x, 1: y, 2: z
 
